@@ -76,6 +76,11 @@ struct SPool {
                         try { (void)s.at(i); } catch (const std::out_of_range &) { threw = true; }
                         if (!threw && !bad) bad = "!at-range";
                     }
+                    if (!bad && n < 12) {      // in-object sizes only: the probe never allocates
+                        const ST::string same = ST::string::from_validated(p, n);
+                        if (!(s == same) || (s != same) || !(same == s) || s.compare(same) != 0 || s.compare_i(same) != 0 || (s < same) || (same < s) ||
+                            ST::hash()(s) != ST::hash()(same) || ST::hash_i()(s) != ST::hash_i()(same)) bad = "!equality";
+                    }
                 }
                 if (bad) where = bad;
             }
@@ -283,6 +288,9 @@ static void apply(SPool &P, const std::string &op) {
     case 'G': arm_now(); new (P.raw[o]) ST::string(std::move(P.buf(BUFSLOT)), mode_of(f[1][0])); P.live[o] = true; break;
     case 'g': arm_now(); new (P.raw[o]) ST::string(static_cast<const B &>(P.buf(BUFSLOT)), mode_of(f[1][0])); P.live[o] = true; break;
     case 'K': const_op(P, o, (int)num(1), f.size() > 2 ? f[2] : "", num(3), num(4)); break;
+    // F<d>,<s>,<x>[,b]: d = ST::format(<text of s as the format string>, std::move(<string x>), 42): an argument passed as an rvalue.
+    // Whether the call throws (bad_format, out_of_range) or returns, x must still hold its value (C18; the formatter only refers to its arguments).
+    case 'F': { arm_now(); new (P.raw[o]) ST::string(ST::format(P.str((int)num(1)).c_str(), std::move(P.str((int)num(2))), 42)); P.live[o] = true; break; }
     case 'V': { std::vector<std::string> ds = splitc(tail, ','); int d[3] = {-1, -1, -1};
                 for (size_t i = 0; i < 3 && i < ds.size(); ++i) if (!ds[i].empty()) d[i] = atoi(ds[i].c_str());
                 vector_op(P, o, f.size() > 1 ? f[1] : "", num(2), num(3), d); break; }
@@ -316,6 +324,7 @@ static bool precheck(SPool &P, const std::string &op) {
     case 'U': return o == BUFSLOT && !P.live[BUFSLOT];
     case 'b': case 'B': case 'h': case 'H': return alive(o) && P.live[BUFSLOT];
     case 'G': case 'g': return dead(o) && P.live[BUFSLOT];
+    case 'F': return dead(o) && alive(s) && alive(num(2)) && num(2) != s;
     case 'K': { std::string n = f.size() > 2 ? f[2] : "";
         if (!(o == BUFSLOT ? !P.live[BUFSLOT] : dead(o)) || !alive(s)) return false;
         if (in_list(n, {"trimset", "bfs", "als", "plus", "plusc", "cplus", "ssout", "bf", "af", "bl", "al", "repl", "replci", "replc", "fmtwith"}) && !alive(num(3))) return false;
@@ -489,7 +498,8 @@ static std::string rand_op(Rng &rng, G &g, bool with_throwing) {
                    return u8 + (w == 4 ? "G" : "g") + S(d) + "," + std::string(1, "ccs"[rng.below(3)]); }
         case 28: if (g.live[BUFSLOT]) { g.live[BUFSLOT] = false; return "X8"; }
                  if (s < 0) continue; { g.live[BUFSLOT] = true; static const char *n[] = {"tolatin1x", "hexdec", "b64dec", "toutf8", "tolatin1"}; return "K8," + S(s) + "," + n[rng.below(5)]; }
-        default: if (d < 0 || s < 0 || o < 0) continue; { unsigned w = (unsigned)rng.below(3);
+        default: if (d < 0 || s < 0 || o < 0) continue; { unsigned w = (unsigned)rng.below(4);
+                   if (w == 3) { if (o == s) continue; g.live[d] = true; return "F" + S(d) + "," + S(s) + "," + S(o); }   // format with an rvalue argument
                    if (w == 0) { g.live[d] = true; return "K" + S(d) + "," + S(s) + ",fmtwith," + S(o); }      // the text of s as a format string: bad_format / out_of_range / ok
                    if (w == 1) { g.live[d] = true; return "K" + S(d) + "," + S(s) + ",fromutf8c"; }
                    return "p" + S(o) + "," + S(s); }
@@ -599,7 +609,8 @@ static void gen(Emitter &em, const Options &opt) {
             body.push_back("N2:" + pre + "c4802e;K8,2,tolatin1x"); body.push_back("N2:" + pre + "c3a9;K8,2,tolatin1x");
             for (const char *bad : {"6", "zz", "4g", "414"}) body.push_back("N2:" + hex_bytes(std::string(c1 & ~(size_t)1, '4') + bad) + ";K8,2,hexdec");
             for (const char *bad : {"QUJD", "QUI=", "QU=D", "Q", "QUJ!", "===="}) body.push_back("N2:" + hex_bytes(bad) + ";K8,2,b64dec");
-            for (const char *bad : {"{", "{}{}{}", "{&3}", "{x", "}{", "{.}", "{&0}", "{_}", "{}", "{{}}"}) body.push_back("N2:" + hex_bytes(std::string(bad)) + ";K3,2,fmtwith,0");
+            for (const char *bad : {"{", "{}{}{}", "{&3}", "{x", "}{", "{.}", "{&0}", "{_}", "{}", "{{}}"}) { body.push_back("N2:" + hex_bytes(std::string(bad)) + ";K3,2,fmtwith,0");
+                body.push_back("N2:" + hex_bytes(std::string(bad)) + ";F3,2,0"); body.push_back("N2:" + hex_bytes(std::string(bad)) + ";F3,2,1"); }      // the argument as an rvalue
             const char *epilogues[] = {"", ";P0,1", ";c1,0", ";X0"};
             for (const auto &b : body) for (const char *ep : epilogues) if (in_slice()) em.emit("shist ops=" + pro + ";" + b + ep);
         }
